@@ -224,6 +224,7 @@ class C19(object):
         dset = SimpleNamespace(ystep=ystep, ybincens=ybincens, ybinedges=ybinedges, obincens=omega, obinedges=obinedges,
                                refmapfile=None, refpeaksfile=None, refoutfile=None, refmanfile=None)
         rec = {}
+        grid_fail = None
         real = pbp.run_iradon
 
         def recording(*a, **k):
@@ -234,8 +235,15 @@ class C19(object):
             pbp.run_iradon = recording
             with contextlib.redirect_stdout(io.StringIO()):
                 ref = pbp.PBPRefine(dset, "phase", y0=y0)
-                pts = geo.step_grid_from_ybincens(ybincens, ystep, 1, y0)
+                gstep = [1, 1, 2, 3][int(ny + len(omega)) % 4]      # maps indexed on a coarser grid are refined on the full one
+                pts = geo.step_grid_from_ybincens(ybincens, ystep, gstep, y0)
                 ref.setmap(SimpleNamespace(i=np.array([q[0] for q in pts]), j=np.array([q[1] for q in pts])))
+                imin, imax = min(q[0] for q in pts), max(q[0] for q in pts)
+                jmin, jmax = min(q[1] for q in pts), max(q[1] for q in pts)
+                wx, wy = geo.step_to_sample(np.arange(imin, imax + 1), np.arange(jmin, jmax + 1), ystep)
+                if ref.sx_grid.shape != (imax - imin + 1, jmax - jmin + 1) or not np.array_equal(ref.sx_grid[:, 0], wx) or \
+                        not np.array_equal(ref.sy_grid[0, :], wy):
+                    grid_fail = "grid %s for steps %d..%d x %d..%d (map indexed every %d steps)" % (ref.sx_grid.shape, imin, imax, jmin, jmax, gstep)
                 dty = geo.dty_values_grain_in_beam(sx, sy, y0, omega)
                 c = (dty - ymin) / ystep
                 prof = np.rint(30 * np.exp(-0.5 * ((np.arange(ny)[:, None] - c[None, :]) / 0.8) ** 2)).astype(int)
@@ -251,6 +259,8 @@ class C19(object):
             pbp.run_iradon = real
         rc = rec.get("recon")
         meas["pbp_setmask_runs"] = 1
+        if grid_fail:
+            return V("conversion-not-inverse", "PBPRefine.setmap: the refinement grids do not cover every step of the map's range: " + grid_fail)
         if rc is None:
             return V("raises", "PBPRefine.setmask did not reconstruct anything")
         if rc.shape != ref.sx_grid.shape or np.asarray(ref.mask).shape != rc.shape:
@@ -508,6 +518,20 @@ class C19(object):
             elif np.abs(roi[~mask]).max() != 0:
                 viol = V("roi-dependent", "pixels outside the mask are not zero")
             dig.append(enginea.sha(roi))
+            if viol is None:
+                # a compact ROI near the rotation axis while the sinogram has intensity in rows further out than the ROI reaches
+                # (other grains, the whole sample): the values on the ROI are those of the full reconstruction
+                s_wide = sino + g.random(sino.shape)
+                yy_, xx_ = np.mgrid[:ref.shape[0], :ref.shape[1]]
+                rad_ = g.uniform(1.5, max(2.0, 0.25 * ref.shape[0]))
+                cmask = np.hypot(yy_ - ref.shape[0] // 2 - g.uniform(-2, 2), xx_ - ref.shape[1] // 2 - g.uniform(-2, 2)) <= rad_
+                if cmask.any():
+                    full_w, _ = self.recon(s_wide, omega, pad, shift, 1, None, desc, simulate=False)
+                    roi_w, _ = self.recon(s_wide, omega, pad, shift, 1, cmask, desc, simulate=False)
+                    dw = float(np.abs(roi_w[cmask] - full_w[cmask]).max())
+                    if not dw <= 1e-10 * float(np.abs(full_w).max()):
+                        viol = V("roi-dependent", "a compact ROI (radius %.1f px) changes the values on the ROI by %.3g (max |recon| %.3g) "
+                                                  "for a sinogram with intensity in rows beyond the ROI" % (rad_, dw, float(np.abs(full_w).max())))
         if viol is None:
             # (4) linearity, also for sinograms in which some projections are empty (a grain that leaves the scanned range,
             # half of a scan, a masked sub-range): f(a*s1 + s2) = a*f(s1) + f(s2)
